@@ -1,5 +1,5 @@
 (* C11 — GetSnapshot returns the latest accepted snapshot, which is always a usable base. *)
-From TSS Require Import AStore Seq proofs.Chain proofs.Inv proofs.Agree proofs.Hist proofs.Cas proofs.Snapshot.
+From TSS Require Import AStore Seq Http proofs.Chain proofs.Inv proofs.Agree proofs.Hist proofs.Cas proofs.Snapshot proofs.UrgencyArith proofs.HttpProps proofs.HttpReach proofs.HttpLib proofs.HttpLib2.
 Open Scope N_scope.
 
 (* ghost_snapshot recomputes, from requests and responses only, the most recent AddSnapshot
@@ -21,3 +21,19 @@ Theorem C11_snapshot_usable_base : forall k cfg h c v d, oracle_ok h ->
   exists pre post, acc = pre ++ post /\ last_id pre (base_of acc) = v /\ v <> nil_id /\
     responses k cfg (h ++ gcv_ops c (v :: ids_of post)) = responses k cfg h ++ map RFound post ++ [RNotFound].
 Proof. exact snapshot_usable_base. Qed.
+
+(* as HTTP clients see it: after ANY HTTP history (any routes, methods, bodies, clients, refusals),
+   GET /v1/client/snapshot of a listed client answers 200 with X-Version-Id and the snapshot content
+   type carrying exactly the id and the bytes of the most recently ACCEPTED upload (both from that one
+   upload), or 404 when there is none — ghost_snapshot recomputes that upload from the library view of
+   the HTTP history (C14) by the rule of C10 *)
+Theorem C11_http_get_snapshot_latest : forall k cfg allow h c E,
+  cfg_ok cfg -> client_id_header allow (COk c) = inl c ->
+  let gs := mkReq MGet PSnapshot (COk c) CTAbsent [] in
+  horacle_ok (h ++ [(gs, E)]) ->
+  exists r, hresponses k cfg allow (h ++ [(gs, E)]) = hresponses k cfg allow h ++ [r] /\
+    match ghost_snapshot c (lib_of allow h) (responses k cfg (lib_of allow h)) [] None with
+    | Some (v, d) => r = mkResp 200 (Some v) None None (Some RTSnapshot) d true
+    | None => r = mkResp 404 None None None None [] true
+    end.
+Proof. exact http_get_snapshot_latest. Qed.
